@@ -90,14 +90,14 @@ def drive_stages(rec, ns, quick):
     rec.data["events"] = events
 
 
-def drive_products(rec, ells):
-    rng = random.Random(rec.seed + 77)
+def drive_products(rec, ells, pats=("max", "alt", "single", "lane")):
+    rng = random.Random(rec.seed + 77 + (ells[0] if ells else 0))
     L = Lib.get()
     qc = q120.Q(L)
     events = []
     for ell in ells:
         for (kind, lx, ly) in [("baa", "a", "a"), ("bbb", "b", "b"), ("bbc", "b", "c"), ("x2c1", "b", "c"), ("x2c2", "b", "c")]:
-            for pat in ("max", "alt", "single", "lane"):
+            for pat in pats:
                 if (pat == "lane" and ell >= 1000) or (pat == "single" and ell == 10000):
                     continue        # (value-pattern probes at the short lengths and at 9999; the accumulator bounds at 10000)
                 xe = 2 if kind.startswith("x2") else 1
@@ -128,7 +128,7 @@ def drive_products(rec, ells):
                     rec.violation("worst-case q120 product %s ell=%d pattern=%s: reference and AVX2 disagree modulo a prime" % (kind, ell, pat),
                                   {"ref": got["ref"], "avx2": got["avx2"]})
     # tables built afresh in the reverse order (b*c, b*b, a*a): the split point of a table may not depend on the tables built before it
-    if ells and max(ells) < 1000:
+    if ells and max(ells) < 1000 and len(pats) > 1:
         fresh = {}
         for kd in ("bbc", "bbb", "baa"):
             fresh[kd] = L.fn("q120_new_vec_mat1col_product_%s_precomp" % kd, "p ")()
@@ -163,6 +163,10 @@ def run(chk, replay=None):
     ells = [0, 1, 3, 102, 9999, 10000] if quick else [0, 1, 2, 3, 5, 6, 7, 100, 101, 4999, 5000, 8193, 9998, 9999, 10000]
     jobs += [("worst-case products ell in %s" % [e for e in ells if e < 1000], drive_products, ([e for e in ells if e < 1000],))]
     jobs += [("worst-case products ell=%d" % e, drive_products, ([e],)) for e in ells if e >= 1000]      # one job per long length
+    # every length up to 130 and around 256 on maximal operands (a kernel or a table may switch its strategy at some length)
+    sweep = list(range(0, 131)) + [255, 256, 257] + ([] if quick else [511, 512, 513, 1023, 1024, 1025, 2047, 2048, 2049, 4095, 4096, 4097, 8191, 8192, 8193])
+    jobs += [("worst-case products, every length in %d..%d" % (sweep[i], sweep[min(i + 33, len(sweep)) - 1]), drive_products,
+              (sweep[i:i + 33], ("max",))) for i in range(0, len(sweep), 33)]
     # short products whose half-words sit at boundary values (a carry between partial sums taken, dropped or doubled)
     jobs += [("products on half-word boundary operands part %d" % i, c10.drive_halves, (10 + i, 100 if quick else 1000)) for i in range(3)]
     res = isolated_many(chk, jobs, timeout=2400, nproc=10)
